@@ -4,8 +4,50 @@
 package bfe_server
 
 import (
+	"net"
+)
+
+import (
 	"github.com/bfenetworks/bfe/bfe_basic"
+	"github.com/bfenetworks/bfe/bfe_module"
+	"github.com/bfenetworks/bfe/bfe_route"
 )
 
 // VerifSetClientAddr exposes setClientAddr to the out-of-tree verification harness.
 func VerifSetClientAddr(req *bfe_basic.Request) { setClientAddr(req) }
+
+type verifC29Listener struct{ conn net.Conn }
+
+func (l *verifC29Listener) Accept() (net.Conn, error) { return l.conn, nil }
+func (l *verifC29Listener) Close() error              { return nil }
+func (l *verifC29Listener) Addr() net.Addr            { return l.conn.LocalAddr() }
+
+// VerifC29Conn drives the real connection path for the first request on raw: BfeListener.Accept (wraps the socket in a
+// bfe_proxy.Conn when balancer is "PROXY"), newConn (session and remote address from the connection), the HandleAccept
+// callbacks registered in cbs (mod_trust_clientip), conn.readRequest and setClientAddr.  For the verification harness.
+func VerifC29Conn(raw net.Conn, balancer string, cbs *bfe_module.BfeCallbacks) (*bfe_basic.Request, error) {
+	ln := &BfeListener{Listener: &verifC29Listener{raw}, BalancerType: balancer}
+	rwc, err := ln.Accept()
+	if err != nil {
+		return nil, err
+	}
+	srv := new(BfeServer)
+	srv.BufioCache = NewBufioCache()
+	srv.CallBacks = cbs
+	srv.MaxHeaderBytes = 1 << 20
+	srv.MaxHeaderUriBytes = 8 * 1024
+	srv.ServerConf = &bfe_route.ServerDataConf{HostTable: new(bfe_route.HostTable)}
+	c, err := newConn(rwc, srv)
+	if err != nil {
+		return nil, err
+	}
+	if hl := cbs.GetHandlerList(bfe_module.HandleAccept); hl != nil {
+		hl.FilterAccept(c.session)
+	}
+	req, err := c.readRequest()
+	if err != nil {
+		return nil, err
+	}
+	setClientAddr(req)
+	return req, nil
+}
